@@ -270,6 +270,7 @@ partial def exploreLoop (tmo fails : Bool) (limit : Nat) (queue : List (State ×
   | (s, path) :: rest =>
     let r := { r with states := r.states + 1 }
     let r := if s.panicked then noteBad r "panic" path else r
+    let r := if tmo then r else (invAll s).foldl (fun r (n, ok) => if ok then r else noteBad r ("inv" ++ n) path) r
     let ss := succs tmo fails s
     let r :=
       if settledB s then
